@@ -1,6 +1,8 @@
 //! jbkdrive - conformance harness binding the TLA+ specification in /verif/spec to the jubako
 //! implementation in /repo (path dependency, rebuilt from the working tree on every check).
 mod codec;
+#[cfg(jubako_verif)]
+mod conc;
 mod container;
 mod content;
 mod entries;
@@ -67,6 +69,11 @@ fn run_one(v: Value) {
         "tool" => {
             let s: container::ToolScn = serde_json::from_value(v).expect("bad tool scenario");
             container::tool(&s);
+        }
+        #[cfg(jubako_verif)]
+        "conc" => {
+            let s: conc::Scn = serde_json::from_value(v).expect("bad conc scenario");
+            conc::run(&s);
         }
         "views" => {
             let s: views::Scn = serde_json::from_value(v).expect("bad views scenario");
